@@ -165,6 +165,11 @@ pub fn calc_depth(s: &str) -> u32 {
 
 #[cfg(not(windows))]
 pub fn calc_depth(s: &str) -> u32 {
+    // the root directory has no component at all: "/" is one level above "/tmp", not beside it
+    if s == "/" {
+        return 0;
+    }
+
     s.matches("/").count() as u32
 }
 
